@@ -108,6 +108,14 @@ func execute(c *Case, measuring bool, overrides map[*Action]uint64, txGas []uint
 			}
 		}
 	}
+	for n := 1; n <= 8; n++ {
+		o.labels[nativeAddr(n)] = fmt.Sprintf("native%d", n)
+		if c.PrefundNative {
+			fund(nativeAddr(n), 1)
+		} else {
+			o.acct(nativeAddr(n))
+		}
+	}
 	for i, ad := range cp.derived2 {
 		if _, ok := o.labels[ad]; !ok {
 			o.labels[ad] = fmt.Sprintf("made%d", i)
@@ -148,10 +156,14 @@ func execute(c *Case, measuring bool, overrides map[*Action]uint64, txGas []uint
 			Time: big.NewInt(1000), GasLimit: gas, GasPrice: new(big.Int), Value: big.NewInt(int64(tx.Value)), State: st,
 			EVMConfig: &vm.Config{RuntimeConfig: rtConfig(), LocalConfig: vm.LocalConfig{Debug: true, Tracer: tr}},
 		}
-		var initCode []byte
+		var initCode, input []byte
 		if tx.Init != nil {
 			initCode = cp.initCode(tx.Init)
+		} else if tx.Native != nil {
+			to = nativeAddr(normNative(tx.Native.N))
+			input = nativeVector(normNative(tx.Native.N), tx.Native.Vec)
 		}
+		o.topInput = input
 		var (
 			made    common.Address
 			left    uint64
@@ -167,6 +179,8 @@ func execute(c *Case, measuring bool, overrides map[*Action]uint64, txGas []uint
 			}()
 			if tx.Init != nil {
 				_, made, left, callErr = runtime.Create(initCode, cfg)
+			} else if tx.Native != nil {
+				_, left, callErr = runtime.Call(to, input, cfg)
 			} else {
 				_, left, callErr = runtime.Call(to, nil, cfg)
 			}
@@ -204,7 +218,7 @@ func execute(c *Case, measuring bool, overrides map[*Action]uint64, txGas []uint
 				word = addrHash(made)
 			}
 		} else {
-			top = o.beginTx(to, uint64(tx.Value), gas)
+			top = o.beginTx(to, uint64(tx.Value), gas, input)
 			if callErr == nil {
 				word = u64Hash(1)
 			}
@@ -442,19 +456,27 @@ func runCase(c Case) kit.Result {
 	for _, tx := range c.Txs {
 		add(tx.Init != nil, "creation transaction")
 	}
+	add(s.nativeOK > 0, "native contract call succeeds")
+	add(s.nativeFail > 0, "native contract call fails")
+	add(s.nativeFailValue > 0, "native contract call with value fails")
+	add(s.nativeOpaque > 0, "native contract outcome only observed")
+	add(c.PrefundNative && s.nativeCalls > 0, "native contract call, accounts prefunded")
+	for _, tx := range c.Txs {
+		add(tx.Native != nil, "transaction to a native contract")
+	}
 	add(s.maxDepth >= 3, "depth>=3")
 	add(s.maxDepth >= 6, "depth>=6")
 	add(s.maxDepth >= 50, "depth>=50")
 	add(s.frames == 0, "no frame ran")
 	add(s.steps > 5000, "steps>5000")
-	nontrivial := s.deepFailWithWrites > 0 || s.staticAttempts > 0 || st1.deepFailWithWrites > 0 || st1.staticAttempts > 0
+	nontrivial := s.nativeFailValue > 0 || st1.nativeFailValue > 0 || s.deepFailWithWrites > 0 || s.staticAttempts > 0 || st1.deepFailWithWrites > 0 || st1.staticAttempts > 0
 	sort.Strings(labels)
 	return kit.OK(nontrivial, labels...)
 }
 
 var _ = kit.Register(kit.Prop[Case]{
 	Name: "CallTree",
-	Rule: "program trees of 2-5 contracts (0-6 actions each: SSTORE/LOG with frame-unique values, CALL/CALLCODE/DELEGATECALL/STATICCALL with value and gas {all,2300,0,small,exact}, CREATE/CREATE2 with init templates, reads; terminators STOP/RETURN/REVERT/INVALID/loop/out-of-gas/underflow/bad jump/SELFDESTRUCT), compiled by the harness assembler, run by runtime.Call on a committed StateDB with a step tracer; 35% as the second transaction after a finalised first; gas fixed/tiny/exact/fraction of measured use; the trace drives a shadow journal that is compared with the real state; non-trivial = a frame at depth >= 2 fails after it (or a successful sub-frame) changed state, or a state-changing op is attempted inside a static call; distinct = FNV-64 of the case JSON",
+	Rule: "program trees of 2-5 contracts (0-6 actions each: SSTORE/LOG with frame-unique values, CALL/CALLCODE/DELEGATECALL/STATICCALL with value and gas {all,2300,0,small,exact}, CREATE/CREATE2 with init templates, reads, calls of the native contracts 0x01-0x08 with value / gas near the required amount / valid, short and off-curve inputs (also as plain transactions, optionally with prefunded native accounts); terminators STOP/RETURN/REVERT/INVALID/loop/out-of-gas/underflow/bad jump/SELFDESTRUCT), compiled by the harness assembler, run by runtime.Call on a committed StateDB with a step tracer; 35% as the second transaction after a finalised first; gas fixed/tiny/exact/fraction of measured use; the trace drives a shadow journal that is compared with the real state; non-trivial = a frame at depth >= 2 fails after it (or a successful sub-frame) changed state, or a state-changing op is attempted inside a static call, or a value-carrying call of a native contract fails; distinct = FNV-64 of the case JSON",
 	Gen:  genCase, Run: runCase,
-	Quick: 4000, Thorough: 100000, Chunk: 500, MinNonTrivialPct: 18,
+	Quick: 6000, Thorough: 100000, Chunk: 500, MinNonTrivialPct: 18,
 })
